@@ -1,3 +1,17 @@
+(* Corr/C14.v — the address-mode byte: the pure SetAddressMode API, and the byte a Display sends at run time *)
 Require Export Corr.Dcs.
-Definition check := check14.
-Definition model_out := model_dout.
+Require Import Model.Base Corr.Common Corr.Draw.
+Open Scope Z_scope.
+Inductive c14case := C14D (d : dcase) | C14P (pc : pcase).
+Inductive c14out := C14DO (o : dout) | C14PO (p : pout).
+Definition check (x : c14case * c14out) : Z :=
+  match x with
+  | (C14D d, C14DO o) => check14 (d, o)
+  | (C14P pc, C14PO p) =>
+      (* after init and after every set_orientation the controller's address mode is the MIPI encoding of
+         (configured colour order, current orientation, configured refresh order) *)
+      code (corr_ops pc p) (let v := judge pc p in v_results_ok v && v_madctl v && v_obs v)
+  | _ => 3
+  end.
+Definition model_out (c : c14case) :=
+  match c with C14D d => C14DO (model_dout d) | C14P pc => match run_pcase pc with Some p => C14PO p | None => C14DO (model_dout (0, DRaw 0 [])) end end.
